@@ -118,6 +118,9 @@ pub fn run_binary_case(c: &Case, info: &mut CaseInfo) -> Result<(), Failure> {
     let (text, desc) = build_doc(c, scratch.to_str().unwrap_or("/tmp"));
     let (text, ls, api) = assign_ports(&text);
     let what = desc.join("; ");
+    if let Ok(p) = std::env::var("VERIF_DUMP_CONFIG") {
+        let _ = std::fs::write(p, &text);
+    }
     let (exit, out, _) = bin::config_test(&text, Duration::from_secs(30));
     let head: String = text.chars().take(400).collect();
     match exit {
@@ -505,10 +508,10 @@ impl SubCheck for Ladder {
         "ladder"
     }
     fn rule(&self) -> String {
-        format!("bounded enumeration on the real binary: {} syntactic constructs (brackets, arrays, tuples, calls, index / member / call chains, unary chains, nested templates, if / let / ?: nests, wide arrays, long literals / identifiers / blanks / comments, realistic || and && lists, a chain of every binary operator, many rules) at sizes 1 ... 16384 (thorough: ... 262144) with the rungs around the parser limits (15, 16, 17, 255, 256, 257); each filter is (1) loaded with `redproxy-rs -t` from a configuration file (main thread) and (2) posted to /api/rules of a running proxy (worker thread), followed by a request that evaluates the rules; oracle: exit 0 or error exit with a message within 30 s / an HTTP status within 60 s, the process never dies by a signal or panics, the API and the listener answer afterwards; non-trivial = size >= 16", CONSTRUCTS.len())
+        format!("bounded enumeration on the real binary: {} syntactic constructs (brackets, arrays, tuples, calls, index / member / call chains, unary chains, nested templates, if / let / ?: nests, wide arrays, long literals / identifiers / blanks / comments, realistic || and && lists, a chain of every binary operator, many rules) at sizes 1 ... 16384 (thorough: ... 65536) with the rungs around the parser limits (15, 16, 17, 255, 256, 257); each filter is (1) loaded with `redproxy-rs -t` from a configuration file (main thread) and (2) posted to /api/rules of a running proxy (worker thread), followed by a request that evaluates the rules; oracle: exit 0 or error exit with a message within 30 s / an HTTP status within 60 s, the process never dies by a signal or panics, the API and the listener answer afterwards; non-trivial = size >= 16", CONSTRUCTS.len())
     }
     fn run(&self, part: &mut Part) {
-        let sizes: Vec<usize> = if part.tier == vcore::Tier::Quick { vec![1, 8, 16, 17, 64, 255, 256, 257, 600, 2048, 16384] } else { vec![1, 2, 4, 8, 15, 16, 17, 32, 64, 128, 255, 256, 257, 400, 512, 1024, 4096, 16384, 65536, 262144] };
+        let sizes: Vec<usize> = if part.tier == vcore::Tier::Quick { vec![1, 8, 16, 17, 64, 255, 256, 257, 600, 2048, 16384] } else { vec![1, 2, 4, 8, 15, 16, 17, 32, 64, 128, 255, 256, 257, 400, 512, 1024, 4096, 16384, 65536] };
         let mut jobs = vec![];
         for k in CONSTRUCTS {
             for n in &sizes {
